@@ -78,9 +78,11 @@ var c05Contexts = map[string]string{
 	"listeq":    `try numbers(3).map(z->@)=[1,2,3] catch 7`,
 	"mulazy":    `try numbers(5).multiUse({u:l->l.map(z->@),v:l->l.size()}).v catch 7`,
 	"mulazy2":   `try numbers(5).multiUse({u:l->[@].map(z->z),v:l->l.size()}).v catch 7`,
+	"mulazy3":   `try numbers(5).multiUse({u:l->{inv:l.map(z->@)},v:l->l.size()}).v catch 7`,
+	"mulazy4":   `try numbers(5).multiUse({u:l->[[l.map(z->@)]],v:l->l.size()}).v catch 7`,
 }
 
-var c05ContextOrder = []string{"top", "closure", "try", "tryclo", "trynested", "seqmap", "seqacc", "parmap", "paracc", "pardown", "mergeop", "mergefn", "multiuse", "multiuse2", "listeq", "mulazy"}
+var c05ContextOrder = []string{"top", "closure", "try", "tryclo", "trynested", "seqmap", "seqacc", "parmap", "paracc", "pardown", "mergeop", "mergefn", "multiuse", "multiuse2", "listeq", "mulazy", "mulazy3", "mulazy4"}
 
 func c05Jobs(tier string, seed int64) []string {
 	var jobs []string
